@@ -25,6 +25,26 @@ fn build_out(p: &Packet, compressed: bool) -> (String, Option<Vec<u8>>) {
     }
 }
 
+/// IPSECKEY records with each gateway shape (none, IPv4, IPv6, a name, an unassigned type) and a 5-octet key, as the
+/// single answer of a response, the RDATA cut at every length with a consistent RDLENGTH, followed by `tail` bytes that
+/// are not part of the message's records (what a reader must not borrow from)
+pub fn ipseckey_cut_messages(tail: &[u8]) -> Vec<Vec<u8>> {
+    let mut out = vec![];
+    for gateway in [vec![0u8], vec![1, 192, 0, 2, 1], { let mut x = vec![2u8]; x.extend_from_slice(&[0x20, 1, 0x0d, 0xb8, 0, 0, 0, 0, 0, 0, 0, 0, 0, 0, 0, 1]); x }, vec![3, 2, b'g', b'w', 3, b'o', b'r', b'g', 0], vec![3, 0xC0, 12], vec![9, 1, 2, 3]] {
+        let mut rdata = vec![10u8, gateway[0], 2];
+        rdata.extend_from_slice(&gateway[1..]);
+        rdata.extend_from_slice(&[0xAA, 0xBB, 0xCC, 0xDD, 0xEE]);
+        for k in 0..=rdata.len() {
+            let mut m = vec![0u8, 3, 0x84, 0, 0, 0, 0, 1, 0, 0, 0, 0, 3, b'k', b'e', b'y', 0, 0, 45, 0, 1, 0, 0, 0, 120];
+            m.extend_from_slice(&(k as u16).to_be_bytes());
+            m.extend_from_slice(&rdata[..k]);
+            m.extend_from_slice(tail);
+            out.push(m);
+        }
+    }
+    out
+}
+
 /// packets for the round-trip properties: every kind in every section, shared suffixes, sizes
 pub fn build_out_pub(p: &Packet, compressed: bool) -> (String, Option<Vec<u8>>) { build_out(p, compressed) }
 
